@@ -646,8 +646,7 @@ def machines(tier):
     base = dict(max_handles=2, max_ext=1, ops=('and', 'xor'), with_ite=False, with_foa=False,
                 with_refops=True)
     pl = [
-        ('bdd3', FaultBdd(('x', 'y', 'z'), seeds=('fresh', 'used', 'warm'), light=q, **base),
-         3 if q else 4),
+        ('bdd3', FaultBdd(('x', 'y', 'z'), seeds=('fresh', 'used', 'warm'), light=q, **base), 3),
         ('bdd3-dyn', FaultBdd(('x', 'y', 'z'), seeds=('used', 'fresh'), reordering=2.0,
                               forced=(1, 2), light=True, **base), 2 if q else 3),
         ('autoref3', FaultAutoref(names=('x', 'y', 'z'), max_live=2, ops=('and',), rich=False,
@@ -657,6 +656,9 @@ def machines(tier):
                                       forced=(1, 2)), 2 if q else 3),
     ]
     if not q:
+        # deeper layers in light mode (every fault injected and judged, continuations rotated)
+        pl.append(('bdd3-deep', FaultBdd(('x', 'y', 'z'), seeds=('fresh', 'used', 'warm'),
+                                         light=True, **base), 4))
         pl.append(('bdd2-deep', FaultBdd(('x', 'y'), seeds=('fresh', 'used'), light=True,
                                          **dict(base, max_handles=3)), 4))
     for label, mm, d in pl:
